@@ -1,6 +1,7 @@
 /- C06: encoding is append-only, context-free and repeatable — generic over every environment, instantiated at Gen.env;
    the regenerated schema has no unrecognised statement and its frames have the recognised shape. -/
-import FinProto.Obl.Side
+import FinProto.Obl.SMirror
+import FinProto.Obl.SNoOpaque
 import FinProto.Props.EncLemmas
 set_option linter.defProp false
 namespace FinProto.Obl
